@@ -207,3 +207,19 @@ def value(code, n_frac):
 def pat(c, n_word):
     """n_word-bit two's complement image of the integer c."""
     return mod(c, 1 << n_word)
+
+
+def bitop(op, a, b):
+    """bitwise and/or/xor of two non-negative integers (n-bit patterns)"""
+    if isinstance(a, MTerm) or isinstance(b, MTerm):
+        r = core._int_bitop(op, core.SNum(mterm(a).t) if isinstance(a, MTerm) else a, core.SNum(mterm(b).t) if isinstance(b, MTerm) else b)
+        return mterm(r)
+    a, b = int(a), int(b)
+    return {'and': a & b, 'or': a | b, 'xor': a ^ b}[op]
+
+
+def from_pat(p, signed, n_word):
+    """the code whose n_word-bit two's complement image is p"""
+    if not signed:
+        return p
+    return ite(p >= (1 << (n_word - 1)), p - (1 << n_word), p)
